@@ -38,6 +38,22 @@ func (p *Processor) OpenCDR(
 		return cdr, nil
 	}
 
+	if chargingData.NfConsumerIdentification == nil {
+		return nil, fmt.Errorf("nfConsumerIdentification is missing")
+	}
+	if plmnId := chargingData.NfConsumerIdentification.NFPLMNID; plmnId != nil {
+		if len(plmnId.Mcc) != 3 || (len(plmnId.Mnc) != 2 && len(plmnId.Mnc) != 3) {
+			return nil, fmt.Errorf("malformed nFPLMNID: mcc[%s] mnc[%s]", plmnId.Mcc, plmnId.Mnc)
+		}
+	}
+	if pduSessionInfo := chargingData.PDUSessionChargingInformation; pduSessionInfo != nil {
+		if pduSessionInfo.PduSessionInformation == nil ||
+			pduSessionInfo.PduSessionInformation.NetworkSlicingInfo == nil ||
+			pduSessionInfo.PduSessionInformation.NetworkSlicingInfo.SNSSAI == nil {
+			return nil, fmt.Errorf("incomplete pDUSessionChargingInformation")
+		}
+	}
+
 	chfCdr.RecordType = cdrType.RecordType{
 		Value: 200,
 	}
